@@ -1229,7 +1229,18 @@ def _dag_recipes():
     def r_power(o, x, y, z):
         e = o.add(x, y)
         return o.add(o.pow(e, o.mul(z, 0.5)), o.mul(e, z))
-    return [("e*(e + y)", r_front), ("(e + 1)*(e + 2)", r_both), ("(2x + e)*e", r_not_leading), ("(y*y + e + z/y) / (e*e)", r_middle),
+    def r_extended_first(o, x, y, z):   # other expressions were built ON TOP of this one before it is differentiated / registered itself
+        base = o.add(o.mul(x, y), z)
+        ext = o.sub(base, o.fn("exp", y))
+        o.mul(ext, base)
+        return base
+
+    def r_extended_first_unary(o, x, y, z):
+        base = o.mul(o.fn("sin", x), y)
+        o.fn("exp", o.add(base, z))
+        o.div(base, o.add(z, 2.0))
+        return base
+    return [("base used after it was extended", r_extended_first), ("base of a unary extension", r_extended_first_unary), ("e*(e + y)", r_front), ("(e + 1)*(e + 2)", r_both), ("(2x + e)*e", r_not_leading), ("(y*y + e + z/y) / (e*e)", r_middle),
             ("nested shares", r_nested), ("shared exp / sin", r_unary), ("two shared parts, other order", r_twice_right), ("shared base of a power", r_power)]
 
 
@@ -1421,10 +1432,28 @@ def pipeline_rules(repo, chk):
         I.setattr_(m, "c11", Con(ce11))
         ref["c11"] = [(sy * sp_ <= 100, sx * sz + sq), (True, sy - sx)]
         check("the same expression object re-used as a branch of a piecewise constraint", m, leaves, ref, values)
+        # an expression that was EXTENDED first (other expressions built on top of it) and is then registered itself
+        base = add(mul(x, y), z)
+        ext = sub(base, fn("exp", y))
+        I.delattr_(m, "c11")
+        ref.pop("c11")
+        I.setattr_(m, "c12", Con(ext))
+        ref["c12"] = sx * sy + sz - sp.exp(sy)
+        check("an extension of a base expression registered", m, leaves, ref, values)
+        I.delattr_(m, "c8")
+        ref.pop("c8")
+        I.setattr_(m, "c13", Con(base))
+        ref["c13"] = sx * sy + sz
+        check("the base expression registered after its extension", m, leaves, ref, values)
         left = {k: len(v) for k, v in ev.leaves.items()}
         floats_needed = len(I.getattr_(m, "_float_cfloat_map"))
-        chk.expect(left["var"] == 3 and left["param"] == 2 and left["float"] == floats_needed, "R-C15-12", "model history: the evaluator holds exactly the leaves the remaining constraints refer to", loc(mfn),
-                   expected="3 variables, 2 parameters, %d constants" % floats_needed, found=left)
+        syms = set()
+        for e_ in ref.values():
+            for ex_ in ([x_[1] for x_ in e_] + [x_[0] for x_ in e_ if x_[0] is not True] if isinstance(e_, list) else [e_]):
+                syms |= {str(s_) for s_ in ex_.free_symbols}
+        n_var, n_par = len(syms & {"x", "y", "z"}), len(syms & {"p", "q"})
+        chk.expect(left["var"] == n_var and left["param"] == n_par and left["float"] == floats_needed, "R-C15-12", "model history: the evaluator holds exactly the leaves the remaining constraints refer to", loc(mfn),
+                   expected="%d variables, %d parameter(s), %d constants" % (n_var, n_par, floats_needed), found=left)
     except MockEvaluatorError as e:
         chk.bad("R-C15-12", "model history: the evaluator protocol is respected", loc(mfn), "the compiled evaluator would read outside a leaf list / use a freed object here", found=str(e))
     except ProgramError as e:
@@ -1432,7 +1461,7 @@ def pipeline_rules(repo, chk):
             chk.bad("R-C15-12", "model history: the evaluator protocol is respected", loc(mfn), found="%s (line %s)" % (e, e.lineno))
         else:
             raise ExtractError("R-C15-12: the interpreted model code raised %s (line %s)" % (e, e.lineno))
-    chk.floor("R-C15-12", 15)
+    chk.floor("R-C15-12", 17)
 
 
 def dag_rules(repo, chk, rpn_info):
